@@ -60,13 +60,13 @@ theorem digitsRevLoop_length (b : Nat) (hb : 2 ≤ b) :
         have := ih (v / b) k (by omega)
         omega
 
-theorem digitsRev_length (b iv : Nat) (hb : 2 ≤ b) (h : iv < 2 ^ 63) :
-    1 ≤ (digitsRev b iv).length ∧ (digitsRev b iv).length ≤ 63 := by
+theorem digitsRev_length (b iv k : Nat) (hb : 2 ≤ b) (h : iv < 2 ^ k) :
+    1 ≤ (digitsRev b iv).length ∧ (digitsRev b iv).length ≤ max k 1 := by
   unfold digitsRev
   by_cases h0 : iv = 0
-  · simp [h0]
+  · simp [h0]; omega
   · simp only [h0, if_false]
-    refine ⟨?_, digitsRevLoop_length b hb iv iv 63 h⟩
+    refine ⟨?_, Nat.le_trans (digitsRevLoop_length b hb iv iv k h) (Nat.le_max_left _ _)⟩
     cases iv with
     | zero => omega
     | succ n => simp [digitsRevLoop]
@@ -83,32 +83,35 @@ theorem signChars_length (neg blank sign : Bool) :
     (signChars neg blank sign).length = if neg || blank || sign then 1 else 0 := by
   cases neg <;> cases blank <;> cases sign <;> rfl
 
+/-- every finite double is below this bound -/
+def DBL_BOUND : Nat := 2 ^ 1024
+
 /-- digits as the reference writes them -/
 def specDigits (radix iv : Nat) (caps : Bool) : List Char :=
-  (FormatSpec.digits radix (min iv I64_MAX)).map (FormatSpec.digitChar caps)
+  (FormatSpec.digits radix iv).map (FormatSpec.digitChar caps)
 
-theorem specDigits_length (radix iv : Nat) (caps : Bool) (hr : 2 ≤ radix) :
-    1 ≤ (specDigits radix iv caps).length ∧ (specDigits radix iv caps).length ≤ 63 := by
-  have h := digitsRev_length radix (min iv I64_MAX) hr (by unfold I64_MAX; omega)
-  have e := digitsRev_eq radix (min iv I64_MAX) hr
+theorem specDigits_length (radix iv : Nat) (caps : Bool) (hr : 2 ≤ radix) (hiv : iv < DBL_BOUND) :
+    1 ≤ (specDigits radix iv caps).length ∧ (specDigits radix iv caps).length ≤ 1024 := by
+  have h := digitsRev_length radix iv 1024 hr hiv
+  have e := digitsRev_eq radix iv hr
   unfold specDigits
   rw [← e]
   simpa using h
 
 /-- `render_integer` never panics and produces sign, prefix, a computed run of zeros, digits -/
 theorem renderInteger_ok (neg : Bool) (iv P prec : Nat) (blank sign : Bool) (radix : Nat)
-    (pre : List Char) (pip caps : Bool) (hr : 2 ≤ radix) (hp : pre.length ≤ 2) :
+    (pre : List Char) (pip caps : Bool) (hr : 2 ≤ radix) (hp : pre.length ≤ 2) (hiv : iv < DBL_BOUND) :
     renderInteger neg iv P prec blank sign radix pre pip caps =
       .ok (signChars neg blank sign ++ pre ++
         List.replicate
           (max (P - (if neg || blank || sign then 1 else 0) - (if pip then 0 else pre.length)) prec
             - ((if pip then pre.length else 0) + (specDigits radix iv caps).length)) '0'
         ++ specDigits radix iv caps) := by
-  have hl := specDigits_length radix iv caps hr
-  have e := digitsRev_eq radix (min iv I64_MAX) hr
-  have hD : (digitsRev radix (min iv I64_MAX)).reverse.map (digitChar caps) = specDigits radix iv caps := by
+  have hl := specDigits_length radix iv caps hr hiv
+  have e := digitsRev_eq radix iv hr
+  have hD : (digitsRev radix iv).reverse.map (digitChar caps) = specDigits radix iv caps := by
     unfold specDigits; rw [← e]; rfl
-  have hlen : (digitsRev radix (min iv I64_MAX)).length = (specDigits radix iv caps).length := by
+  have hlen : (digitsRev radix iv).length = (specDigits radix iv caps).length := by
     rw [← hD]; simp
   unfold renderInteger
   simp only [hD, hlen]
@@ -175,40 +178,41 @@ theorem truncInt_neg (n : Num) : decide (FormatSpec.truncInt n < 0) = (n.neg && 
 
 theorem signText_eq (b : Bool) (fl : Flags) : FormatSpec.signText b fl = signChars b fl.blank fl.sign := rfl
 
-theorem specDigits_small (radix iv : Nat) (caps : Bool) (h : iv ≤ I64_MAX) :
-    specDigits radix iv caps = (FormatSpec.digits radix iv).map (FormatSpec.digitChar caps) := by
-  unfold specDigits; rw [Nat.min_eq_left h]
+theorem specDigits_small (radix iv : Nat) (caps : Bool) :
+    specDigits radix iv caps = (FormatSpec.digits radix iv).map (FormatSpec.digitChar caps) := rfl
 
 /-- the integer conversions: model = reference, for every flag set, width, precision and every
-    number whose integer part fits `i64` -/
+    finite double (integer part below 2^1024) -/
 theorem formatCode_int (n : Num) (d : List Char) (c : Code) (w : Nat) (p : Option Nat)
-    (hc : c.conv = .dec ∨ c.conv = .oct ∨ c.conv = .hex) (hn : n.whole ≤ I64_MAX) :
+    (hc : c.conv = .dec ∨ c.conv = .oct ∨ c.conv = .hex) (hn : n.whole < DBL_BOUND) :
     formatCode (.num n d) c w p =
       .ok (FormatSpec.intConv c.flags w p c.conv c.caps (FormatSpec.truncInt n)) := by
   have hsl := signChars_length (n.neg && decide (n.whole ≥ 1)) c.flags.blank c.flags.sign
   rcases hc with h | h | h
   · -- %d
     unfold formatCode formatBody FormatSpec.intConv
-    simp only [h, Val.asNum, renderDecimal, bind, Except.bind, pure, Except.pure]
-    rw [renderInteger_ok _ _ _ _ _ _ 10 [] false false (by omega) (by simp)]
+    simp only [h, Val.asNum, renderDecimal, bind, Except.bind, pure, Except.pure, reduceCtorEq, decide_false,
+      Bool.or_self, Bool.and_false, Bool.false_eq_true, if_false]
+    rw [renderInteger_ok _ _ _ _ _ _ 10 [] false false (by omega) (by simp) hn]
     simp only [natAbs_truncInt, truncInt_neg, signText_eq, FormatSpec.base, reduceCtorEq, decide_false,
       Bool.false_and, Bool.and_false, if_false, Bool.false_eq_true, FMT_DEFAULT_IPREC]
-    rw [← specDigits_small 10 n.whole false hn, ← hsl]
+    rw [← specDigits_small 10 n.whole false, ← hsl]
     have := fill_eq_out c.flags w (p.getD 0) (signChars (n.neg && decide (n.whole ≥ 1)) c.flags.blank c.flags.sign) [] (specDigits 10 n.whole false)
     simp only [List.length_nil, List.append_nil, Nat.sub_zero] at this ⊢
     rw [← this]
   · -- %o
     unfold formatCode formatBody FormatSpec.intConv
-    simp only [h, Val.asNum, renderOctal, bind, Except.bind, pure, Except.pure]
+    simp only [h, Val.asNum, renderOctal, bind, Except.bind, pure, Except.pure, reduceCtorEq, decide_false,
+      Bool.or_self, Bool.and_false, Bool.false_eq_true, if_false]
     by_cases ha : (c.flags.alt && decide (n.whole ≥ 1)) = true
     · have ha' : (c.flags.alt && n.whole != 0) = true := by
         simp only [Bool.and_eq_true, decide_eq_true_eq, bne_iff_ne] at ha ⊢; exact ⟨ha.1, by omega⟩
       have ha2 : (c.flags.alt && decide (n.whole ≠ 0)) = true := by
         simp only [Bool.and_eq_true, decide_eq_true_eq] at ha ⊢; exact ⟨ha.1, by omega⟩
-      rw [renderInteger_ok _ _ _ _ _ _ 8 _ true false (by omega) (by split <;> simp)]
+      rw [renderInteger_ok _ _ _ _ _ _ 8 _ true false (by omega) (by split <;> simp) hn]
       simp only [ha, natAbs_truncInt, truncInt_neg, signText_eq, FormatSpec.base, reduceCtorEq, decide_false,
         Bool.false_and, if_false, if_true, Bool.false_eq_true, FMT_DEFAULT_IPREC, decide_true, Bool.true_and, ha2, Nat.zero_add]
-      rw [← specDigits_small 8 n.whole false hn, ← hsl]
+      rw [← specDigits_small 8 n.whole false, ← hsl]
       have := fill_eq_in c.flags w (p.getD 0) 1 (signChars (n.neg && decide (n.whole ≥ 1)) c.flags.blank c.flags.sign) (specDigits 8 n.whole false)
       simp only [List.length_nil, List.append_nil, Nat.sub_zero, List.replicate_one, List.length_cons, List.length_singleton,
         List.singleton_append, List.cons_append, List.nil_append, List.append_assoc] at this ⊢
@@ -219,20 +223,21 @@ theorem formatCode_int (n : Num) (d : List Char) (c : Code) (w : Nat) (p : Optio
         · rfl
         · simp only [hA, Bool.true_and, decide_eq_false_iff_not, Nat.not_le] at ha
           simp only [Bool.true_and, decide_eq_false_iff_not]; omega
-      rw [renderInteger_ok _ _ _ _ _ _ 8 _ true false (by omega) (by split <;> simp)]
+      rw [renderInteger_ok _ _ _ _ _ _ 8 _ true false (by omega) (by split <;> simp) hn]
       simp only [ha, natAbs_truncInt, truncInt_neg, signText_eq, FormatSpec.base, reduceCtorEq, decide_false,
         Bool.false_and, if_false, if_true, Bool.false_eq_true, FMT_DEFAULT_IPREC, decide_true, Bool.true_and, ha2, Nat.zero_add]
-      rw [← specDigits_small 8 n.whole false hn, ← hsl]
+      rw [← specDigits_small 8 n.whole false, ← hsl]
       have := fill_eq_in c.flags w (p.getD 0) 0 (signChars (n.neg && decide (n.whole ≥ 1)) c.flags.blank c.flags.sign) (specDigits 8 n.whole false)
       simp only [List.length_nil, List.append_nil, Nat.sub_zero, List.replicate_zero, Nat.zero_add, List.nil_append] at this ⊢
       rw [← this]
   · -- %x %X
     unfold formatCode formatBody FormatSpec.intConv
-    simp only [h, Val.asNum, renderHex, bind, Except.bind, pure, Except.pure]
-    rw [renderInteger_ok _ _ _ _ _ _ 16 _ false c.caps (by omega) (by split <;> (try split) <;> simp)]
+    simp only [h, Val.asNum, renderHex, bind, Except.bind, pure, Except.pure, reduceCtorEq, decide_false,
+      Bool.or_self, Bool.and_false, Bool.false_eq_true, if_false]
+    rw [renderInteger_ok _ _ _ _ _ _ 16 _ false c.caps (by omega) (by split <;> (try split) <;> simp) hn]
     simp only [natAbs_truncInt, truncInt_neg, signText_eq, FormatSpec.base, reduceCtorEq, decide_false, decide_true,
       Bool.false_and, Bool.true_and, if_false, Bool.false_eq_true, FMT_DEFAULT_IPREC]
-    rw [← specDigits_small 16 n.whole c.caps hn, ← hsl]
+    rw [← specDigits_small 16 n.whole c.caps, ← hsl]
     have := fill_eq_out c.flags w (p.getD 0) (signChars (n.neg && decide (n.whole ≥ 1)) c.flags.blank c.flags.sign)
       (if c.flags.alt = true then (if c.caps = true then ['0', 'X'] else ['0', 'x']) else []) (specDigits 16 n.whole c.caps)
     simp only [Nat.zero_add] at this ⊢
